@@ -19,6 +19,7 @@ from eventlet.greenio import GreenSocket
 import eventlet.wsgi
 import greenlet
 
+from gunicorn import util
 from gunicorn.workers.base_async import AsyncWorker
 from gunicorn.sock import ssl_wrap_socket
 
@@ -152,7 +153,19 @@ class EventletWorker(AsyncWorker):
 
     def handle(self, listener, client, addr):
         if self.cfg.is_ssl:
-            client = ssl_wrap_socket(client, self.cfg)
+            try:
+                client = ssl_wrap_socket(client, self.cfg)
+            except Exception as e:
+                # the peer has already reset the connection, the handshake
+                # failed, ...: this concerns this connection only.  An
+                # exception that leaves this greenthread would be thrown
+                # into the accept loop by _eventlet_stop() and end it.
+                if isinstance(e, OSError):
+                    self.log.debug("Error wrapping the client socket: %s", e)
+                else:
+                    self.log.exception("Error wrapping the client socket")
+                util.close(client)
+                return
         super().handle(listener, client, addr)
 
     def run(self):
